@@ -1,6 +1,9 @@
 /* C19 harness: hwloc_shmem_topology_get_length / write / adopt on the real library.
  * Script on stdin (same configuration / "pre <op>" lines as hwv_dup.c, whose code is included):
  *   new / <config> / load / pre <op> ...
+ *   republish <k> <seed>    previous content of the target region: T0 = A, T1 = a bigger copy of A; reference images in fresh files, then every
+ *                           pre-fill (zeros, 0xFF, 0x5A, random, XML text) x {T0,T1}, then T1,T0,T0,T1,T1,T0 on one file at the same offset/address:
+ *     rewrite <label> rc=..|SIG<n> / image <label> same|DIFF off= got= want= / readopt <label> obscmp same|DIFF..|SIG<n>|rc=-1:ERR
  *   sweep <first> <count>   for i in first..first+count-1: root info "hwvpad" of 7+8i bytes, then the length/write/file part of "shmem 0"
  *   shmem <k>       store A in a file at offset k pages, adopt it in a forked child, exercise the adopted copy:
  *     length rc= len=                    hwloc_shmem_topology_get_length
@@ -48,10 +51,14 @@ static int in_child(int (*f)(void *), void *arg)
   return WEXITSTATUS(st);
 }
 
+/* the parent keeps [RES_ADDR, RES_ADDR+RES_LEN) reserved PROT_NONE (so that none of its own allocations lands there) followed by one more
+   PROT_NONE page; the process that maps the file frees the range first */
+static void *RES_ADDR; static size_t RES_LEN;
+static void free_range(void) { if (RES_ADDR && RES_LEN) munmap(RES_ADDR, RES_LEN); }
 struct wr { hwloc_topology_t t; int fd; unsigned long long off; void *addr; size_t len; };
 static int do_write(void *a)
 {
-  struct wr *w = a; int rc; errno = 0;
+  struct wr *w = a; int rc; free_range(); errno = 0;
   rc = hwloc_shmem_topology_write(w->t, w->fd, w->off, w->addr, w->len, 0);
   printf("write rc=%d errno=%s\n", rc, rc < 0 ? hwv_errno_class(errno) : "0");
   return 0;
@@ -181,6 +188,7 @@ static int rej_table(void *a)
 static int adopt_and_exercise(void *a)
 {
   struct ad *d = a; int rc, e;
+  free_range();
   in_child(rej_table, d);
   in_child(rej_busy, d);
   errno = 0; rc = hwloc_shmem_topology_adopt(&ADOPTED, d->fd, d->off, d->addr, d->len, 0); e = errno;
@@ -264,7 +272,7 @@ static void do_shmem(hwloc_topology_t A, unsigned k, int full)
     free(pg); }
   /* reserve len + one page, keep the last page PROT_NONE, free the rest for the mapping */
   region = mmap(NULL, len + pagesz, PROT_NONE, MAP_PRIVATE | MAP_ANONYMOUS, -1, 0);
-  munmap(region, len);
+  RES_ADDR = region; RES_LEN = len;
   FS_LO = (off_t)(off > pagesz ? off - pagesz : 0); FS_HI = (off_t)(off + len + pagesz);
   w.t = A; w.fd = fd; w.off = off; w.addr = region; w.len = len;
   st = in_child(do_write, &w);
@@ -275,8 +283,145 @@ static void do_shmem(hwloc_topology_t A, unsigned k, int full)
     st = in_child(adopt_and_exercise, &d);
     if (st < 0) printf("adopter SIG%d\n", -st);
   }
-  munmap(region + len, pagesz);
+  munmap(region, len + pagesz); RES_ADDR = NULL; RES_LEN = 0;
   close(fd);
+}
+
+/* ---------------------------------------------------------------- previous content of the target region
+ * The image hwloc_shmem_topology_write leaves in [offset, offset+length) must not depend on what the file held before
+ * (the writer never truncates): for every pre-fill the image must equal the image written into a fresh file, except at
+ * the bytes hwloc__topology_dup never writes at all (padding, unused tail of ulongs arrays, ...), which are found by
+ * duplicating twice under allocators that fill with different bytes (the same request sequence, hence the same offsets). */
+struct filltma { unsigned char fill; void **ptrs; size_t *sizes; unsigned n, cap; };
+static void *fill_log_malloc(struct hwloc_tma *tma, size_t len)
+{
+  struct filltma *f = tma->data; void *p = malloc(len ? len : 1);
+  memset(p, f->fill, len);
+  if (f->n == f->cap) { f->cap = f->cap ? 2 * f->cap : 1024; f->ptrs = realloc(f->ptrs, f->cap * sizeof(void*)); f->sizes = realloc(f->sizes, f->cap * sizeof(size_t)); }
+  f->ptrs[f->n] = p; f->sizes[f->n] = len; f->n++;
+  return p;
+}
+/* mask[i] = 1: byte i of the image (relative to the mapping) is never written by the duplication */
+static unsigned char *build_mask(hwloc_topology_t T, size_t len, size_t hdrlen)
+{
+  struct filltma f1 = { 0xA5 }, f2 = { 0x5A }; struct hwloc_tma t1, t2; hwloc_topology_t X = NULL, Y = NULL; unsigned char *mask = calloc(len + 1, 1); unsigned i; size_t o = hdrlen, j;
+  t1.malloc = fill_log_malloc; t1.dontfree = 0; t1.data = &f1; t2 = t1; t2.data = &f2;
+  if (hwloc__topology_dup(&X, T, &t1) < 0) X = NULL;
+  if (hwloc__topology_dup(&Y, T, &t2) < 0) Y = NULL;
+  for (j = 24; j < hdrlen && j < len; j++) mask[j] = 1;
+  if (X && Y && f1.n == f2.n)
+    for (i = 0; i < f1.n; i++) {
+      size_t al = (f1.sizes[i] + 7) & ~(size_t)7;
+      for (j = 0; j < al && o + j < len; j++)
+        if (j >= f1.sizes[i] || (((unsigned char *)f1.ptrs[i])[j] == 0xA5 && ((unsigned char *)f2.ptrs[i])[j] == 0x5A)) mask[o + j] = 1;
+      o += al;
+    }
+  for (j = o; j < len; j++) mask[j] = 2;     /* after the used area: must keep the previous content, checked separately */
+  if (X) hwloc_topology_destroy(X);
+  if (Y) hwloc_topology_destroy(Y);
+  free(f1.ptrs); free(f1.sizes); free(f2.ptrs); free(f2.sizes);
+  return mask;
+}
+static void prefill(int fd, size_t off, size_t n, int kind, unsigned seed)
+{
+  static const char xml[] = "<object type=\"Package\" os_index=\"0\" cpuset=\"0x0000ffff\"><info name=\"CPUModel\" value=\"hwv\"/></object>\n";
+  unsigned char *b = malloc(n + 1); size_t i; unsigned long long x = 88172645463325252ull + seed;
+  for (i = 0; i < n; i++) {
+    switch (kind) {
+    case 1: b[i] = 0; break; case 2: b[i] = 0xFF; break; case 3: b[i] = 0x5A; break;
+    case 4: x ^= x << 13; x ^= x >> 7; x ^= x << 17; b[i] = (unsigned char)(x >> 24); break;
+    default: b[i] = (unsigned char)xml[i % (sizeof(xml) - 1)]; break;
+    }
+  }
+  pwrite(fd, b, n, (off_t)off); free(b);
+}
+struct rw { struct wr w; const char *label; };
+static int do_rewrite(void *a)
+{
+  struct rw *r = a; int rc; free_range(); errno = 0;
+  rc = hwloc_shmem_topology_write(r->w.t, r->w.fd, r->w.off, r->w.addr, r->w.len, 0);
+  printf("rewrite %s rc=%d errno=%s\n", r->label, rc, rc < 0 ? hwv_errno_class(errno) : "0");
+  return 0;
+}
+static int do_readopt(void *a)
+{
+  struct ad *d = a; int rc;
+  free_range();
+  errno = 0; rc = hwloc_shmem_topology_adopt(&ADOPTED, d->fd, d->off, d->addr, d->len, 0);
+  if (rc < 0) { printf("rc=-1:%s", hwv_errno_class(errno)); return 0; }
+  c_observe(NULL);
+  hwloc_topology_destroy(ADOPTED);
+  return 0;
+}
+/* write T over whatever [off, off+len) holds, compare the image with [ref] under [mask], adopt in a fresh process */
+static unsigned char *write_and_compare(hwloc_topology_t T, int fd, size_t off, char *region, size_t len, const unsigned char *ref, const unsigned char *mask,
+                                        const unsigned char *before, const char *label)
+{
+  struct rw r; struct ad d; int st; unsigned char *img = malloc(len + 1); size_t i;
+  r.w.t = T; r.w.fd = fd; r.w.off = off; r.w.addr = region; r.w.len = len; r.label = label;
+  st = in_child(do_rewrite, &r);
+  if (st < 0) printf("rewrite %s SIG%d\n", label, -st);
+  memset(img, 0, len); pread(fd, img, len, (off_t)off);
+  if (ref) {
+    for (i = 0; i < len; i++) {
+      if (mask[i] == 1) continue;
+      if (mask[i] == 2) { if (before && img[i] != before[i]) break; continue; }
+      if (img[i] != ref[i]) break;
+    }
+    if (i == len) printf("image %s same\n", label); else printf("image %s DIFF off=%zu got=%02x want=%02x %s\n", label, i, img[i], mask[i] == 2 ? before[i] : ref[i], mask[i] == 2 ? "(beyond the used area)" : "");
+  }
+  ORIG = T; d.fd = fd; d.off = off; d.addr = region; d.len = len; d.pagesz = 4096;
+  printf("readopt %s ", label);
+  st = in_child(do_readopt, &d);
+  if (st < 0) printf("SIG%d", -st);
+  fputc('\n', stdout);
+  return img;
+}
+static void do_republish(hwloc_topology_t A, unsigned k, unsigned seed)
+{
+  size_t pagesz = (size_t)sysconf(_SC_PAGESIZE), len[2] = { 0, 0 }, lmax, off = (size_t)k * pagesz; hwloc_topology_t T[2]; unsigned char *hole[2], *mask[2], *before; char *region;
+  int fd, t, kind; char tmpl[] = "/tmp/hwv-shm-XXXXXX"; char lab[64]; static const char *kn[] = { "hole", "zeros", "ff", "5a", "random", "xmltext" };
+  T[0] = A; hwloc_topology_refresh(A);
+  if (hwloc_topology_dup(&T[1], A) < 0) { printf("republish dup-failed\n"); return; }
+  { size_t gl = 599 + seed % 97 + ((seed & 1) ? 4096 + 8 * (seed % 64) : 0); char *v = malloc(gl + 1); memset(v, 'y', gl); v[gl] = 0;   /* odd seeds: a page more */ hwloc_obj_add_info(hwloc_get_root_obj(T[1]), "hwvgrow", v); free(v);
+    hwloc_obj_add_info(hwloc_get_obj_by_depth(T[1], hwloc_topology_get_depth(T[1]) - 1, 0), "hwvpu", "z"); hwloc_topology_refresh(T[1]); }
+  for (t = 0; t < 2; t++) if (hwloc_shmem_topology_get_length(T[t], &len[t], 0) < 0) { printf("republish length-failed\n"); hwloc_topology_destroy(T[1]); return; }
+  lmax = len[0] > len[1] ? len[0] : len[1];
+  printf("republish offset=%u len0=%zu len1=%zu\n", k, len[0], len[1]);
+  region = mmap(NULL, lmax + pagesz, PROT_NONE, MAP_PRIVATE | MAP_ANONYMOUS, -1, 0);
+  RES_ADDR = region; RES_LEN = lmax;
+  /* reference images: fresh file */
+  for (t = 0; t < 2; t++) {
+    fd = mkstemp(tmpl); unlink(tmpl); strcpy(tmpl, "/tmp/hwv-shm-XXXXXX");
+    mask[t] = build_mask(T[t], len[t], 24);
+    snprintf(lab, sizeof lab, "hole:T%d", t);
+    hole[t] = write_and_compare(T[t], fd, off, region, len[t], NULL, NULL, NULL, lab);
+    close(fd);
+  }
+  /* every kind of previous content, both topologies */
+  for (kind = 1; kind <= 5; kind++) for (t = 0; t < 2; t++) {
+    unsigned char *img;
+    fd = mkstemp(tmpl); unlink(tmpl); strcpy(tmpl, "/tmp/hwv-shm-XXXXXX");
+    prefill(fd, off, lmax, kind, seed);
+    before = malloc(lmax); pread(fd, before, lmax, (off_t)off);
+    snprintf(lab, sizeof lab, "%s:T%d", kn[kind], t);
+    img = write_and_compare(T[t], fd, off, region, len[t], hole[t], mask[t], before, lab);
+    free(img); free(before); close(fd);
+  }
+  /* republishing on one file at the same offset and address: bigger, smaller, same */
+  fd = mkstemp(tmpl); unlink(tmpl);
+  { static const int seq[] = { 1, 0, 0, 1, 1, 0 }; unsigned s;
+    for (s = 0; s < 6; s++) {
+      unsigned char *img; t = seq[s];
+      before = calloc(lmax + 1, 1); pread(fd, before, lmax, (off_t)off);
+      snprintf(lab, sizeof lab, "republish%u:T%d-over-%s", s, t, s == 0 ? "hole" : seq[s-1] == t ? "same" : seq[s-1] ? "bigger" : "smaller");
+      img = write_and_compare(T[t], fd, off, region, len[t], hole[t], mask[t], before, lab);
+      free(img); free(before);
+    } }
+  close(fd);
+  for (t = 0; t < 2; t++) { free(hole[t]); free(mask[t]); }
+  munmap(region, lmax + pagesz); RES_ADDR = NULL; RES_LEN = 0;
+  hwloc_topology_destroy(T[1]);
 }
 
 int main(void)
@@ -296,6 +441,9 @@ int main(void)
     } else if (!strncmp(line, "shmem ", 6)) {
       if (!loaded) printf("shmem notloaded\n");
       else { fputs("A\n", stdout); hwv_dump_topology(stdout, A, 0); do_shmem(A, (unsigned)atoi(line + 6), 1); }
+    } else if (!strncmp(line, "republish ", 10)) {
+      unsigned k = 0, seed = 0;
+      if (!loaded || sscanf(line + 10, "%u %u", &k, &seed) < 1) printf("republish bad\n"); else do_republish(A, k, seed);
     } else if (!strncmp(line, "sweep ", 6)) {
       /* size sweep: the value of a root info grows 8 bytes at a time, so that (header + body) visits every 8-byte residue of the
          page; per size: get_length, the logged requests, the write next to the PROT_NONE page, the file check (no adoption) */
